@@ -197,6 +197,20 @@ fn main() {
             println!("{}", wl::memo::run(seed, shard, count).to_string());
             0
         }
+        "scoped" => {
+            quiet_panics();
+            let seed: u64 = args[2].parse().unwrap();
+            let shard: u64 = args[3].parse().unwrap();
+            let count: u64 = args[4].parse().unwrap();
+            println!("{}", wl::scoped::run(seed, shard, count).to_string());
+            0
+        }
+        "scoped-one" => {
+            quiet_panics();
+            let o = wl::scoped::run_history(args[2].parse().unwrap());
+            for a in &o.actions { println!("{a}"); }
+            if let Some((p, m)) = o.violation { println!("VIOLATION {p} {m}"); 1 } else { 0 }
+        }
         "memo-one" => {
             quiet_panics();
             let hs: u64 = args[2].parse().unwrap();
